@@ -948,6 +948,12 @@ func vxRunExtension(x *vxState) string {
 	lap("pattern shapes")
 	shapes += " + " + vxResultAliasingClass(x)
 	lap("result aliasing")
+	shapes += " + " + vxExpressionSizeClass(x)
+	lap("expression size")
+	shapes += " + " + vxFunctionArityClass(x)
+	lap("function arity")
+	shapes += " + " + vxContextHistoryClass(x)
+	lap("context history")
 	hist := vxHistoryClass(x) // last: everything above is history for it
 	lap("history")
 	return fmt.Sprintf("%d parameter positions x (%d parameter values x {parameter map, Parameter.Value} x {no panic/hang, nothing nested changed, repeat} + %d self-containing values in child processes) + %s + %s + %s", pq, pv, pc, names, shapes, hist)
@@ -1018,6 +1024,282 @@ func vxPatternShapeClass(x *vxState) string {
 		}
 	}
 	return fmt.Sprintf("%d path patterns of 1..3 steps x {fixed, *1.., *0.., *..2} x both directions x end-node predicates x {path, nodes}", n)
+}
+
+// ---- class 4b: expression size (totality within bounded time) ----
+//
+// One expression grown to 8, 16, 32, 64 and 128 terms in every way an expression nests or chains: left-deep and
+// right-deep arithmetic over untyped operands (property lookups), over typed ones, mixed; string concatenation; chains
+// of and / or / xor / comparisons; nested parentheses, negations, function calls and list literals; long IN lists.
+// Oracle: every one returns (a statement or an error) within vxSizeLimit and does not panic. The work the translator
+// does may grow with the size of the query, but a query of 128 terms that does not come back within the limit is a
+// hang for the caller (nothing inside the translation observes a context).
+const vxSizeLimit = 10 * time.Second
+
+func vxExpressionSizeClass(x *vxState) string {
+	type family struct {
+		name  string
+		build func(n int) string
+	}
+	chain := func(op string, term func(i int) string, leftDeep bool) func(n int) string {
+		return func(n int) string {
+			var b strings.Builder
+			if leftDeep {
+				for i := 0; i < n; i++ {
+					if i > 0 {
+						b.WriteString(" " + op + " ")
+					}
+					b.WriteString(term(i))
+				}
+				return b.String()
+			}
+			for i := 0; i < n; i++ {
+				b.WriteString(term(i))
+				if i < n-1 {
+					b.WriteString(" " + op + " (")
+				}
+			}
+			b.WriteString(strings.Repeat(")", n-1))
+			return b.String()
+		}
+	}
+	prop := func(i int) string { return fmt.Sprintf("n.p%d", i) }
+	num := func(i int) string { return fmt.Sprint(i + 1) }
+	str := func(i int) string { return fmt.Sprintf("'s%d'", i) }
+	mixed := func(i int) string {
+		if i%5 == 4 {
+			return num(i)
+		}
+		return prop(i)
+	}
+	cmp := func(i int) string { return fmt.Sprintf("n.p%d = %d", i, i) }
+	nest := func(open, close, core string) func(n int) string {
+		return func(n int) string { return strings.Repeat(open, n) + core + strings.Repeat(close, n) }
+	}
+	where := func(f func(n int) string) func(n int) string {
+		return func(n int) string { return "match (n) where " + f(n) + " return n" }
+	}
+	ret := func(f func(n int) string) func(n int) string {
+		return func(n int) string { return "match (n) return " + f(n) + " as v" }
+	}
+	families := []family{
+		{"sum of property lookups, left-deep", ret(chain("+", prop, true))},
+		{"sum of property lookups, right-deep", ret(chain("+", prop, false))},
+		{"sum of property lookups compared, in where", func(n int) string { return "match (n) where " + chain("+", prop, true)(n) + " > 1 return n" }},
+		{"product and difference of property lookups", ret(func(n int) string { return chain("*", prop, true)(n/2+1) + " - " + chain("-", prop, true)(n/2+1) })},
+		{"sum of numbers", ret(chain("+", num, true))},
+		{"sum of lookups and numbers", ret(chain("+", mixed, true))},
+		{"concatenation of strings and lookups", ret(chain("+", func(i int) string {
+			if i%2 == 0 {
+				return str(i)
+			}
+			return prop(i)
+		}, true))},
+		{"conjunction of comparisons", where(chain("and", cmp, true))},
+		{"disjunction of comparisons, right-deep", where(chain("or", cmp, false))},
+		{"exclusive disjunction of comparisons", where(chain("xor", cmp, true))},
+		{"alternating and / or", where(func(n int) string {
+			var b strings.Builder
+			for i := 0; i < n; i++ {
+				if i > 0 {
+					b.WriteString([]string{" and ", " or "}[i%2])
+				}
+				b.WriteString(cmp(i))
+			}
+			return b.String()
+		})},
+		{"comparison chain", where(func(n int) string { return chain("<", prop, true)(n) })},
+		{"nested parentheses", where(nest("(", ")", "n.a = 1"))},
+		{"nested negations", where(func(n int) string { return strings.Repeat("not ", n) + "n.a = 1" })},
+		{"nested function calls", ret(nest("toLower(", ")", "n.name"))},
+		{"nested list literals", ret(nest("[", "]", "n.a"))},
+		{"IN list of numbers", where(func(n int) string { return "n.a in [" + chain(",", num, true)(n) + "]" })},
+		{"IN list of lookups", where(func(n int) string { return "n.a in [" + chain(",", prop, true)(n) + "]" })},
+		{"projection items", func(n int) string { return "match (n) return " + chain(",", prop, true)(n) }},
+		{"string predicates over a concatenation", where(func(n int) string { return "n.name starts with " + chain("+", prop, true)(n) })},
+	}
+	sizes := []int{8, 16, 32, 64, 128}
+	n := 0
+	for _, fam := range families {
+		for _, size := range sizes {
+			q := fam.build(size)
+			model, err := frontend.ParseCypher(frontend.NewContext(), q)
+			if err != nil {
+				continue
+			}
+			*x.cases++
+			n++
+			type result struct {
+				pan any
+			}
+			ch := make(chan result, 1)
+			t0 := time.Now()
+			go func() {
+				_, _, _, p := safeTranslate(model, x.km, nil)
+				ch <- result{p}
+			}()
+			select {
+			case r := <-ch:
+				if r.pan != nil {
+					x.deviation("size-panic", "C05 panic translating %s with %d terms: %v", fam.name, size, r.pan)
+				}
+				if os.Getenv("VERIF_DEBUG") != "" && time.Since(t0) > 100*time.Millisecond {
+					fmt.Printf("DEBUG size %s %d took %v\n", fam.name, size, time.Since(t0))
+				}
+			case <-time.After(vxSizeLimit):
+				x.deviation("size-hang", "C05 translation of %s with %d terms did not return within %v (query: %.120s...)", fam.name, size, vxSizeLimit, q)
+				return fmt.Sprintf("expression size (stopped at a hang after %d)", n)
+			}
+		}
+	}
+	return fmt.Sprintf("%d expressions of 8..128 terms in %d nesting and chaining families", n, len(families))
+}
+
+// ---- class 4c: function calls of every arity (totality) ----
+//
+// Every function name the model knows (cypher/models/cypher/functions.go), two it does not, with 0, 1, 2 and 3
+// arguments of three kinds (property lookups, numbers, strings), in a projection, in a predicate, under an aggregate and
+// next to another operand. The parser accepts every arity; the translator answers with a statement or an error.
+func vxFunctionArityClass(x *vxState) string {
+	names := []string{"count", "date", "time", "localtime", "datetime", "localdatetime", "duration", "id", "toLower", "toUpper", "labels", "type",
+		"startNode", "endNode", "split", "toString", "toInteger", "toInt", "size", "head", "tail", "nodes", "relationships", "coalesce", "collect",
+		"sum", "avg", "min", "max", "toFloat", "toBoolean", "keys", "properties", "length", "abs", "noSuchFunction", "reverse"}
+	argKinds := [][]string{{"n.a", "n.b", "n.c"}, {"1", "2", "3"}, {"'x'", "'y'", "'z'"}, {"n", "r", "p"}}
+	n := 0
+	for _, name := range names {
+		for arity := 0; arity <= 3; arity++ {
+			for _, args := range argKinds {
+				if arity == 0 && args[0] != "n.a" {
+					continue
+				}
+				call := name + "(" + strings.Join(args[:arity], ", ") + ")"
+				for _, q := range []string{
+					"match p = (n)-[r]->(m) return " + call,
+					"match p = (n)-[r]->(m) where " + call + " = 1 return n",
+					"match p = (n)-[r]->(m) where n.age > 1 and " + call + " = n.x return n",
+					"match p = (n)-[r]->(m) return n, count(" + call + ")",
+					"match p = (n)-[r]->(m) with " + call + " as v return v",
+					"match p = (n)-[r]->(m) return n.a + " + call,
+					"return " + call,
+				} {
+					model, err := frontend.ParseCypher(frontend.NewContext(), q)
+					if err != nil {
+						continue
+					}
+					*x.cases++
+					n++
+					_, _, _, pan, hung := vxTimedTranslate(model, x.km, nil)
+					if hung {
+						x.deviation("function-hang", "C05 translation did not return within %v for %q", vxCallLimit, q)
+						return fmt.Sprintf("function calls (stopped at a hang after %d)", n)
+					}
+					if pan != nil {
+						x.deviation("function-panic", "C05 panic translating %q: %v", q, pan)
+					}
+				}
+			}
+		}
+	}
+	return fmt.Sprintf("%d function calls (%d names x 0..3 arguments x 4 argument kinds x 7 positions)", n, len(names))
+}
+
+// ---- class 4d: the caller's context belongs to one call ----
+//
+// The kind mapper is shared between calls; the context is not. A mapper that honours the context it is handed (it
+// answers with ctx.Err() once the context has ended, as a mapper backed by a database does) sees, for every lookup, the
+// context of the call that makes the lookup: after a translation under a context that has since been cancelled, a
+// translation under a live context gives the text a fresh mapper gives, and a translation under the cancelled context
+// gives an error (or the same text, when it needs no lookup) - in any order, repeatedly.
+type vxCtxMapper struct {
+	inner pgsql.KindMapper
+	seen  map[context.Context]int
+}
+
+func (s *vxCtxMapper) MapKinds(ctx context.Context, kinds graph.Kinds) ([]int16, error) {
+	s.seen[ctx]++
+	if err := ctx.Err(); err != nil {
+		return nil, err
+	}
+	return s.inner.MapKinds(ctx, kinds)
+}
+
+func (s *vxCtxMapper) AssertKinds(ctx context.Context, kinds graph.Kinds) ([]int16, error) {
+	s.seen[ctx]++
+	if err := ctx.Err(); err != nil {
+		return nil, err
+	}
+	return s.inner.AssertKinds(ctx, kinds)
+}
+
+func vxContextHistoryClass(x *vxState) string {
+	queries := []string{
+		"match (n:NodeKind1) return n",
+		"match (n:NodeKind1)-[r:EdgeKind1]->(m:NodeKind2) where n.name = 'a' return m",
+		"match p = (n:NodeKind1)-[:EdgeKind1*1..]->(m) return p",
+		"match (n) where n:NodeKind1 or n:NodeKind2 return n",
+		"match (n) return n",
+	}
+	type outcome struct {
+		sql string
+		err string
+		pan any
+	}
+	run := func(ctx context.Context, km pgsql.KindMapper, q string) (o outcome) {
+		defer func() {
+			if r := recover(); r != nil {
+				o.pan = r
+			}
+		}()
+		model, err := frontend.ParseCypher(frontend.NewContext(), q)
+		if err != nil {
+			return outcome{err: "parse: " + err.Error()}
+		}
+		res, err := translate.Translate(ctx, model, km, nil, translate.DefaultGraphID)
+		if err != nil {
+			return outcome{err: err.Error()}
+		}
+		text, err := translate.Translated(res)
+		if err != nil {
+			return outcome{err: err.Error()}
+		}
+		return outcome{sql: text}
+	}
+	n := 0
+	for ai, qa := range queries {
+		for _, qb := range queries {
+			*x.cases++
+			n++
+			fresh := run(context.Background(), newKindMapper(), qb)
+			km := &vxCtxMapper{inner: newKindMapper(), seen: map[context.Context]int{}}
+			type ctxKey struct{}
+			ctxA, cancelA := context.WithCancel(context.WithValue(context.Background(), ctxKey{}, "A"))
+			first := run(ctxA, km, qa)
+			if ai%2 == 0 {
+				cancelA()
+			}
+			ctxB, cancelB := context.WithCancel(context.WithValue(context.Background(), ctxKey{}, "B"))
+			seenA := km.seen[ctxA]
+			second := run(ctxB, km, qb)
+			switch {
+			case first.pan != nil || second.pan != nil:
+				x.deviation("context-panic", "C05 panic translating %q then %q on one context-honouring kind mapper: %v %v", qa, qb, first.pan, second.pan)
+			case second != fresh:
+				x.deviation("context-history", "C05 after translating %q under a context that has %s, translating %q under a live context of its own gives (%q, error %q); a fresh mapper gives (%q, error %q)", qa, map[bool]string{true: "ended", false: "not ended"}[ai%2 == 0], qb, second.sql, second.err, fresh.sql, fresh.err)
+			case km.seen[ctxA] != seenA:
+				x.deviation("context-history", "C05 translating %q under its own context made %d kind lookups under the context of the EARLIER call (%q)", qb, km.seen[ctxA]-seenA, qa)
+			}
+			cancelA()
+			cancelB()
+			// the ended context itself: an error or (no lookup needed) the fresh text, never a panic, never another text
+			third := run(ctxB, km, qb)
+			if third.pan != nil {
+				x.deviation("context-panic", "C05 panic translating %q under a cancelled context: %v", qb, third.pan)
+			} else if third.err == "" && third.sql != fresh.sql {
+				x.deviation("context-history", "C05 translating %q under a cancelled context gives another text than a fresh call: %q versus %q", qb, third.sql, fresh.sql)
+			}
+		}
+	}
+	return fmt.Sprintf("%d ordered pairs of translations under two contexts (the first cancelled or not) on one context-honouring kind mapper", n)
 }
 
 // ---- class 5: a returned Result is a value of its own ----
